@@ -176,6 +176,11 @@ pub fn child_main(args: &Args) -> i32 {
         // optional lifecycle thread: a lagging keyspace `victim` (64 MiB memtable, never flushed: its writes pin the
         // sealed journals) is written, then deleted while the clients and the workers are busy
         let victim_n = args.u64("victim", 0) as usize;
+        if victim_n > 0 {
+            // hold the deleting thread for a while before it takes the keyspace dictionary lock, so that the
+            // workers' journal maintenance gets to run while the deletion is in flight but not committed
+            crate::hooks::set_named_delay(Some(("meta.remove.begin", 25_000)));
+        }
         let victim_thread = if victim_n > 0 {
             let db = db.clone();
             Some(
